@@ -233,6 +233,42 @@ def check_cost(c, rec):
     rec.tag(f"ratio~{round(b / a, 1)}")
 
 
+# ---- backward touches only its graph: no process-wide garbage collection inside it ---------------------------------------
+@st.composite
+def local_cases(draw):
+    return {"n": draw(st.integers(1, 6)), "calls": draw(st.integers(1, 4)), "junk": draw(st.sampled_from([0, 1000, 20000]))}
+
+
+def check_local(c, rec):
+    """With automatic collection switched off, any collector pass observed during backward is one the library asked for:
+    its cost is proportional to everything alive in the process, not to the graph being differentiated."""
+    rec.nontrivial(c["junk"] > 0)
+    junk = [[i] for i in range(c["junk"])]
+    x = Tensor(np.array([0.5, -0.25]), requires_grad=True)
+    y = x
+    for _ in range(c["n"]):
+        y = y * 1.5 + y
+    passes = []
+
+    def cb(phase, info):
+        if phase == "start":
+            passes.append(info.get("generation"))
+    gc.collect()
+    gc.disable()
+    gc.callbacks.append(cb)
+    try:
+        for _ in range(c["calls"]):
+            y.backward(Tensor(np.ones(2)))
+    finally:
+        gc.callbacks.remove(cb)
+        gc.enable()
+    del junk
+    if passes:
+        raise Violation("superlinear", f"backward on a graph of {2 * c['n']} operations ran the process-wide garbage collector {len(passes)} "
+                                       f"time(s) (generations {passes[:4]}): its cost then grows with everything alive in the process; {c}",
+                        region="gc_in_backward")
+
+
 # ---- cost inside single C calls (list.insert(0, ...), repeated concatenation): CPU time per recorded operation ------
 @st.composite
 def cpu_cost_cases(draw):
@@ -293,7 +329,7 @@ def check_cpu_cost(c, rec):
 @st.composite
 def loop_cases(draw, lengths):
     return {"L": draw(st.sampled_from(lengths)),
-            "mode": draw(st.sampled_from(["no_grad", "no_requires_grad", "no_grad_on_param", "no_grad_after_backward"])),
+            "mode": draw(st.sampled_from(["no_grad", "no_requires_grad", "no_grad_on_param", "no_grad_after_backward", "tracked_detach"])),
             "body": draw(st.sampled_from(["affine", "tanh", "matmul", "index", "sum_broadcast", "varying_scalars", "varying_scalars", "views_only", "slice_shrink", "conv", "pool"])), "dtype": draw(st.sampled_from(["float32", "float64"])),
             # the loop runs while retain_grads() is in force as well (it concerns recorded tensors only)
             "retain": draw(st.sampled_from([False, False, True]))}
@@ -304,7 +340,7 @@ def check_loop(c, rec):
     rec.nontrivial(L >= 1000)
     rec.tag(c["mode"], c["body"])
     dt = np.dtype(c["dtype"])
-    on_param = c["mode"] in ("no_grad_on_param", "no_grad_after_backward")
+    on_param = c["mode"] in ("no_grad_on_param", "no_grad_after_backward", "tracked_detach")
     w = Tensor(np.eye(3, dtype=dt) * 0.999, requires_grad=on_param)
     y = Tensor(np.ones((2, 3), dtype=dt), requires_grad=on_param)
     recorded = (y * w.sum()).sum() if c["mode"] == "no_grad_after_backward" else None   # a graph recorded normally
@@ -343,11 +379,14 @@ def check_loop(c, rec):
             # a queue consumed from the front: rest = rest[1:] - each step a view of the previous one
             y = Tensor(np.ones((L + 2, 3), dtype=dt), requires_grad=on_param)
             for _ in range(L):
-                y = y[1:]
+                y = y[1:].detach() if c["mode"] == "tracked_detach" else y[1:]
                 refs.append(weakref.ref(y))
             return
         for _ in range(L):
             y = body(y)
+            if c["mode"] == "tracked_detach":
+                # each step is recorded (the operands require grad) and then cut off: state = f(state).detach()
+                y = (y * 1.0).detach() if not y.requires_grad else y.detach()
             refs.append(weakref.ref(y))
 
     import contextlib
@@ -380,6 +419,7 @@ def subchecks():
     return [SubCheck("graphs", check_graph, lambda: graph_cases(DEPTHS_Q), quick=14, thorough=0, shards_quick=8, shards_thorough=1),
             SubCheck("graphs_deep", check_graph, lambda: graph_cases(DEPTHS_T), quick=0, thorough=100, shards_quick=1, shards_thorough=16),
             SubCheck("cost", check_cost, None, enum=enum_cost, exhaustive=True, shards_quick=8, shards_thorough=16),
+            SubCheck("backward_is_local", check_local, local_cases, quick=40, thorough=400),
             SubCheck("cost_cpu_time", check_cpu_cost, cpu_cost_cases, quick=0, thorough=4, shards_quick=1, shards_thorough=1),
             SubCheck("untracked_loops", check_loop, lambda: loop_cases([10, 100, 1000, 3000]), quick=25, thorough=0, shards_quick=4),
             SubCheck("untracked_loops_long", check_loop, lambda: loop_cases([1000, 3000, 10000]), quick=0, thorough=100,
